@@ -13,6 +13,7 @@
 -/
 import Stfs.Props.C05
 import Stfs.Spec.RefFs
+import Stfs.Proofs.RefFs
 import Stfs.Gen.Fingerprints
 namespace Stfs.C02
 open Stfs
@@ -52,6 +53,105 @@ theorem ref_failed_mkdir_changes_nothing (s : RefFs.State) (p : Name) (perm uid 
   · split
     · rfl
     · rename_i h1 h2; simp [h1, h2] at h
+
+/-- (2b) The reference itself obeys the property's last sentence for every call with a failure
+    result: `mkdir`, `remove`, `rename`, the attribute updates (`chmod`/`chown`/`chtimes` are
+    `updAttr`), `symlink` and the create-or-open decision of `openFile` return the state they were
+    given whenever the result is not `ok`.  (`mkdirAll` is deliberately not in the list: like
+    `RefFs.mkdir -p` it keeps the ancestors it created before it met a file.) -/
+theorem ref_failed_call_changes_nothing (s : RefFs.State) :
+    (∀ p perm uid gid now, (RefFs.mkdir s p perm uid gid now).2 ≠ .ok → (RefFs.mkdir s p perm uid gid now).1 = s) ∧
+    (∀ p, (RefFs.remove s p).2 ≠ .ok → (RefFs.remove s p).1 = s) ∧
+    (∀ a b, (RefFs.rename s a b).2 ≠ .ok → (RefFs.rename s a b).1 = s) ∧
+    (∀ p f, (RefFs.updAttr s p f).2 ≠ .ok → (RefFs.updAttr s p f).1 = s) ∧
+    (∀ t l, (RefFs.symlink s t l).2 ≠ .ok → (RefFs.symlink s t l).1 = s) ∧
+    (∀ p c e w perm uid gid now, (RefFs.openFile s p c e w perm uid gid now).2.1 ≠ .ok →
+        (RefFs.openFile s p c e w perm uid gid now).1 = s) := by
+  refine ⟨?_, ?_, ?_, ?_, ?_, ?_⟩
+  · intro p perm uid gid now
+    generalize hr : RefFs.mkdir s p perm uid gid now = r
+    intro h; unfold RefFs.mkdir at hr; simp only at hr
+    repeat' split at hr
+    all_goals (subst hr; first | rfl | (simp at h))
+  · intro p
+    generalize hr : RefFs.remove s p = r
+    intro h; unfold RefFs.remove at hr; simp only at hr
+    repeat' split at hr
+    all_goals (subst hr; first | rfl | (simp at h))
+  · intro a b
+    generalize hr : RefFs.rename s a b = r
+    intro h; unfold RefFs.rename at hr; simp only at hr
+    repeat' split at hr
+    all_goals (subst hr; first | rfl | (simp at h))
+  · intro p f
+    generalize hr : RefFs.updAttr s p f = r
+    intro h; unfold RefFs.updAttr at hr; simp only at hr
+    repeat' split at hr
+    all_goals (subst hr; first | rfl | (simp at h))
+  · intro t l
+    generalize hr : RefFs.symlink s t l = r
+    intro h; unfold RefFs.symlink at hr; simp only at hr
+    repeat' split at hr
+    all_goals (subst hr; first | rfl | (simp at h))
+  · intro p c e w perm uid gid now
+    generalize hr : RefFs.openFile s p c e w perm uid gid now = r
+    intro h; unfold RefFs.openFile at hr; simp only at hr
+    repeat' split at hr
+    all_goals (subst hr; first | rfl | (simp at h))
+
+/-- (2c) "A successful call changes exactly the entries the reference changes", made precise on
+    the reference: after a successful `mkdir`, `remove` or `symlink` every path `q` maps to what it
+    mapped to before, except the one named path, which maps to exactly the new node (or nothing);
+    attribute updates, the create decision of `openFile` and a handle's RefFs.flush leave every path
+    other than the (resolved) named one untouched. -/
+theorem ref_successful_call_changes_exactly (s : RefFs.State) (q : Name) :
+    (∀ p perm uid gid now, (RefFs.mkdir s p perm uid gid now).2 = .ok →
+      (RefFs.mkdir s p perm uid gid now).1.get q =
+        if q = RefFs.norm p then some (.dir { perm := perm % 512, uid := uid, gid := gid, mtime := now }) else s.get q) ∧
+    (∀ p, (RefFs.remove s p).2 = .ok → (RefFs.remove s p).1.get q = if q = RefFs.norm p then none else s.get q) ∧
+    (∀ t l, (RefFs.symlink s t l).2 = .ok →
+      (RefFs.symlink s t l).1.get q = if q = RefFs.norm l then some (.symlink (RefFs.norm t)) else s.get q) ∧
+    (∀ p f, (RefFs.updAttr s p f).2 = .ok → q ≠ s.resolve (RefFs.norm p) → (RefFs.updAttr s p f).1.get q = s.get q) ∧
+    (∀ p c e w perm uid gid now, (RefFs.openFile s p c e w perm uid gid now).2.1 = .ok →
+      q ≠ s.resolve (RefFs.norm p) → (RefFs.openFile s p c e w perm uid gid now).1.get q = s.get q) ∧
+    (∀ p d, q ≠ p → (RefFs.flush s p d).get q = s.get q) := by
+  refine ⟨?_, ?_, ?_, ?_, ?_, ?_⟩
+  · intro p perm uid gid now
+    generalize hr : RefFs.mkdir s p perm uid gid now = r
+    intro h; unfold RefFs.mkdir at hr; simp only at hr
+    repeat' split at hr
+    all_goals (subst hr; first | (simp at h; done) | simp only [RefFs.get_set])
+  · intro p
+    generalize hr : RefFs.remove s p = r
+    intro h; unfold RefFs.remove at hr; simp only at hr
+    repeat' split at hr
+    all_goals (subst hr; first | (simp at h; done) | simp only [RefFs.get_erase])
+  · intro t l
+    generalize hr : RefFs.symlink s t l = r
+    intro h; unfold RefFs.symlink at hr; simp only at hr
+    repeat' split at hr
+    all_goals (subst hr; first | (simp at h; done) | simp only [RefFs.get_set])
+  · intro p f
+    generalize hr : RefFs.updAttr s p f = r
+    intro h hq; unfold RefFs.updAttr at hr; simp only at hr
+    repeat' split at hr
+    all_goals (subst hr; first | (simp at h; done) | simp only [RefFs.get_set, if_neg hq])
+  · intro p c e w perm uid gid now
+    generalize hr : RefFs.openFile s p c e w perm uid gid now = r
+    intro h hq; unfold RefFs.openFile at hr; simp only at hr
+    repeat' split at hr
+    all_goals (subst hr; first | (simp at h; done) | rfl | simp only [RefFs.get_set, if_neg hq])
+  · intro p d hq
+    unfold RefFs.flush
+    split
+    · simp only [RefFs.get_set, if_neg hq]
+    · rfl
+
+/-- the premises are satisfiable: a concrete successful and a concrete failed reference call -/
+example :
+    let s := RefFs.initFs {} 511 0 0 1
+    (RefFs.mkdir s (n!"/a") 493 0 0 2).2 = .ok ∧ (RefFs.mkdir s (n!"/a/b") 493 0 0 2).2 = .notExist ∧
+    (RefFs.remove s (n!"/")).2 = .invalid := by decide
 
 def env1 (now : Int) : Env := { now := now, recs := [(3, 0)] }
 
